@@ -231,3 +231,109 @@ func (k *knownFile) match(v map[string]interface{}) *knownFinding {
 	}
 	return nil
 }
+
+// ---------------------------------------------------------------- conc evidence
+
+func (a *agg) addConc(s map[string]interface{}) {
+	a.episodes += int(num(s, "episodes"))
+	a.calls += int(num(s, "calls"))
+	a.points += int64(num(s, "points"))
+	a.switches += int(num(s, "switches"))
+	a.preempt += int(num(s, "preemptions_inside_op"))
+	a.blocked += int(num(s, "blocked_yields"))
+	a.gcs += int(num(s, "forced_gcs"))
+	a.concurrent += int(num(s, "episodes_with_overlap"))
+	addMap(a.families, s["families"])
+	addMap(a.overlap, s["overlap"])
+	addMap(a.fnCalls, s["fn_calls"])
+	addMap(a.fired, s["fired"])
+	if l, ok := s["sched_sigs"].([]interface{}); ok {
+		for _, x := range l {
+			a.schedSigs[fmt.Sprint(x)] = true
+		}
+	}
+	if l, ok := s["samples"].([]interface{}); ok {
+		for _, x := range l {
+			if len(a.samples) < 2 {
+				a.samples = append(a.samples, x)
+			}
+		}
+	}
+	a.perConfig[fmt.Sprint(s["config"])] += int(num(s, "episodes"))
+	if w := num(s, "wall_s"); w > a.wall {
+		a.wall = w
+	}
+}
+
+func (a *agg) evidenceConc(tier string, seed uint64, spec propSpec, cfgs []string, b *Build, npool int, wall float64) map[string]interface{} {
+	perHour := 0.0
+	if a.wall > 0 {
+		perHour = float64(a.episodes) / a.wall * 3600
+	}
+	a.fired["forced_gc"] = a.gcs
+	a.fired["preemption_inside_operation"] = a.preempt
+	cov := map[string]interface{}{
+		"evaluations":                     a.episodes,
+		"distinct_nontrivial":             len(a.schedSigs),
+		"rule":                            "An evaluation is one episode: 1..8 simulated caller goroutines, each with a list of real library calls on shared read-only inputs, run one at a time under a seeded scheduler (families: random slices, lockstep twins, PCT priorities, sequential histories) that preempts at instrumented points inside the library; the Go race detector, kept blind to the scheduler, judges the library's own synchronisation, and every outcome is compared with the same call executed alone in a fresh process. A schedule signature is the hash of the ordered (client, function, decile of the call's solo length) at each context switch; distinct_nontrivial counts distinct signatures of episodes in which a client was resumed while another client was inside an unfinished library call.",
+		"samples":                         a.samples,
+		"episodes_with_overlapping_calls": a.concurrent,
+		"library_calls":                   a.calls,
+		"calls_per_function":              a.fnCalls,
+		"context_switches":                a.switches,
+		"preemptions_inside_operations":   a.preempt,
+		"blocked_yields_on_shim_locks":    a.blocked,
+		"schedule_families":               a.families,
+		"overlap_matrix":                  a.overlap,
+		"simulated_steps":                 a.points,
+		"simulated_time_note":             "the library has no clock; simulated time is counted in logical steps (instrumentation points executed inside library calls)",
+		"episodes_per_hour":               int(perHour),
+		"fault_kinds_fired":               a.fired,
+		"episodes_per_configuration":      a.perConfig,
+		"solo_reference_pool":             npool,
+		"instrumentation_points":          b.Points,
+		"race_detector":                   "Go race detector, GORACE=" + gorace + "; canary (unsynchronised write through the same baton) reported, mutex-protected canary silent",
+		"determinism_selftest":            "first episodes of worker 0 executed twice under different GOMAXPROCS: identical traces",
+		"real_vs_stub": map[string]interface{}{
+			"real": []string{"ed25519, extra/x25519, internal/* of /repo's working tree (instrumented copy, incl. the amd64 assembly selector in the default configuration)", "crypto/sha512", "golang.org/x/crypto/curve25519", "Go runtime, allocator, GC, real OS threads"},
+			"stub": []string{"the Go scheduler's choice of which caller runs -> seeded baton", "io.Reader arguments and crypto/rand.Reader -> simulated entropy device", "sync -> shim over the real primitives (inactive unless the tree imports sync)"},
+		},
+	}
+	return map[string]interface{}{
+		"property_id": "C15",
+		"tier":        tier,
+		"seed":        seed,
+		"level":       spec.level,
+		"coverage":    cov,
+		"assumptions": []string{
+			"interleavings are explored at the granularity of instrumented points (function entries, loop iterations, statements touching package-level variables); finer interleavings are covered only through the race detector",
+			"the race detector cannot see assembly and drops reports whose earlier access has left its history window (mitigated: history_size=7, small slices, lockstep-twin schedules, canary)",
+			"a clean run is evidence, not proof",
+		},
+		"wall_s":     wall,
+		"violations": 0,
+	}
+}
+
+func (a *agg) vacuityConc() error {
+	if a.episodes == 0 {
+		return fmt.Errorf("no episode ran")
+	}
+	if a.preempt == 0 {
+		return fmt.Errorf("no preemption landed inside an operation")
+	}
+	if a.concurrent == 0 || len(a.schedSigs) < 2 {
+		return fmt.Errorf("no episode had overlapping calls")
+	}
+	kinds := map[string]bool{}
+	for k := range a.overlap {
+		p := strings.SplitN(k, "|", 2)
+		if len(p) == 2 && p[0] != p[1] {
+			kinds[k] = true
+		}
+	}
+	if len(kinds) == 0 {
+		return fmt.Errorf("no overlap of two different kinds of calls occurred")
+	}
+	return nil
+}
